@@ -406,6 +406,17 @@ func wsFramesFamily(seed uint64, tier string, args []string) {
 		} {
 			add(s)
 		}
+		// the meta member: a span context of every length (the library's own client sends 29 bytes = 40 base64 characters),
+		// valid and invalid base64, on calls and notifications
+		constM := `"H.Const"`
+		if role == "client" {
+			constM = `"R.Const"`
+		}
+		for i, sc := range []string{"", "AAAA", strings.Repeat("A", 39) + "=", strings.Repeat("A", 40), strings.Repeat("A", 44), strings.Repeat("QUJD", 16),
+			strings.Repeat("A", 400), "!!!not-base64", strings.Repeat("A", 43) + "="} {
+			add(fmt.Sprintf(`{"jsonrpc":"2.0","id":%d,"method":%s,"meta":{"SpanContext":%q}}`, 9000+i, constM, sc))
+			add(fmt.Sprintf(`{"jsonrpc":"2.0","method":%s,"meta":{"SpanContext":%q,"other":"x"}}`, constM, sc))
+		}
 		for mi, m := range methods {
 			for pi, p := range params {
 				for ii := 0; ii < 8; ii++ {
